@@ -40,6 +40,8 @@ func runC18(c *an.Ctx) {
 	c.Floor("C18-R3", 2)
 	c.Floor("C18-R4", 3)
 	c.Floor("C18-R5", 5)
+	c.Floor("C18-R6", 4)
+	c18Config(c)
 
 	// ---- R1
 	num := func(a an.AV) int64 { return an.Env{"x": a}.I("x") }
@@ -410,4 +412,52 @@ func runC18(c *an.Ctx) {
 			return "the empty semaphore when pipeline limiting is off; got " + passed
 		},
 	})
+}
+
+// c18Config checks that the limits reach the servers that enforce them.
+func c18Config(c *an.Ctx) {
+	// every stream server is built on newServerDNS with the caller's ConfigDNS unchanged
+	for _, ctor := range []string{"dnsserver.NewServerDNS", "dnsserver.NewServerTLS"} {
+		fn := c.Fn(ctor)
+		if fn == nil {
+			c.Und("C18-R6", ctor+" passes its ConfigDNS on", token.NoPos, "anchor not found")
+			continue
+		}
+		c.Analysed(ctor)
+		calls := an.CallsTo(fn, "dnsserver.newServerDNS")
+		if len(calls) != 1 {
+			c.Und("C18-R6", ctor+" passes its ConfigDNS on", fn.Pos(), "expected one call of newServerDNS, found %d", len(calls))
+			continue
+		}
+		arg := calls[0].Common().Args[1]
+		// the argument is the parameter (NewServerDNS) or its embedded ConfigDNS field (NewServerTLS), loaded whole
+		ap, ok := an.AccessPath(arg)
+		if ld, isLoad := arg.(*ssa.UnOp); isLoad {
+			// a by-value parameter spilled into a local: look through the spill
+			root := ld.X
+			suffix := ""
+			if fa, isFA := root.(*ssa.FieldAddr); isFA {
+				_, f, base, _ := an.FieldOf(fa)
+				root, suffix = base, "."+f
+			}
+			if al, isAl := root.(*ssa.Alloc); isAl {
+				if st := an.SingleStore(al); st != nil {
+					if pa, isPa := st.Val.(*ssa.Parameter); isPa {
+						ap, ok = fmt.Sprintf("p%d%s", an.ParamIndex(pa), suffix), true
+					}
+				}
+			}
+		}
+		c.Check(ok && (ap == "p0" || ap == "p0.ConfigDNS"), "C18-R6", ctor+" passes its ConfigDNS on", calls[0].Pos(),
+			"the stream server keeps the caller's whole ConfigDNS (pipeline switch, pipeline count, listen config with the connection limiter)",
+			"the stream server is built from a re-assembled ConfigDNS ("+ap+"): a setting not copied (pipeline switch, count, limiter) is silently off for this transport")
+	}
+	n := sharedPartialCopy(c, "C18-R6", func(fn *ssa.Function) bool {
+		k := an.FnKey(fn)
+		return strings.HasPrefix(k, "dnsserver.") || strings.HasPrefix(k, "dnssvc.") || strings.HasPrefix(k, "cmd.")
+	}, map[string]string{})
+	c.Inf("C18-R6", "partial-copy sweep", token.NoPos, "%d field-by-field copies of a configuration struct examined in dnsserver, dnssvc and cmd", n)
+	// the listener constructors hand the TCP limits to both stream transports
+	checkFieldMap(c, "C18-R6", "dnssvc.NewListener", "dnsserver.ConfigDNS", map[string]string{
+		"MaxPipelineCount": ".MaxPipelineCount", "MaxPipelineEnabled": ".MaxPipelineEnabled"})
 }
